@@ -112,7 +112,18 @@ class Scenario:
                         elif kind == "Nonblocking":
                             obj = Nonblocking(self.in_stream)
                         else:
-                            obj = Termmode(self.in_stream, given_attrs)
+                            # the attributes a Termmode is asked to set: what tcgetattr reports (nothing changes), the same
+                            # with ECHO / ICANON off, or that with control characters written as ints - termios accepts
+                            # ints and 1-byte bytes alike and reports bytes back
+                            attrs = termios.tcgetattr(self.slave)
+                            tm = st.get("tm", 0)
+                            if tm >= 1:
+                                attrs[3] &= ~(termios.ECHO | termios.ICANON)
+                            if tm == 2:
+                                attrs[6][termios.VSTOP] = 0
+                                attrs[6][termios.VINTR] = 3
+                                attrs[6][termios.VEOF] = 4
+                            obj = Termmode(self.in_stream, attrs if tm else given_attrs)
                         if st["k"] == "build":
                             exited[kind] = obj        # constructed now, entered by a later step (reuse=1)
                             return
@@ -293,7 +304,7 @@ class C12(TraceCheck):
     sweep_exclude = ("NO_COLOR",)
     module = "CtxTrace"
     rule = ("scenarios on real ptys: nestings of <=3 contexts among Input (sigint_event, disable_terminal_start_stop), "
-            "FullscreenWindow (hide_cursor), CursorAwareWindow (hide_cursor, keep_last_line), Cbreak, Nonblocking, Termmode; "
+            "FullscreenWindow (hide_cursor), CursorAwareWindow (hide_cursor, keep_last_line), Cbreak, Nonblocking, Termmode (asked to set what tcgetattr reports / ECHO+ICANON off / that with control characters written as ints); "
             "bodies of renders, requests, thread-safe/scheduled triggers; normal exit or an exception after every prefix; renders that raise part-way (a row that is no string; a foreign exception landing at the n-th line executed inside render_to_terminal), the exception then leaving the contexts; "
             "repeated enter/exit; a real SIGINT sent from another thread during a blocked request (KeyboardInterrupt with "
             "sigint_event off, SigIntEvent with it on); main and non-main thread; initial O_NONBLOCK off/on and two initial "
@@ -365,6 +376,12 @@ class C12(TraceCheck):
                 for kind in ("Cbreak", "Nonblocking", "Termmode"):
                     for end in (X, R):
                         yield [init, E(kind), end]
+                for tm in (1, 2):
+                    for end in (X, R):
+                        yield [init, E("Termmode", tm=tm), end]
+                        yield [init, E("Termmode", tm=tm), E("Cbreak"), X, end]
+                        yield [init, E("Cbreak"), E("Termmode", tm=tm), end, X]
+                        yield [init, E("Termmode", tm=tm), E("Input", nostart=1), OP("request_key"), X, end]
                 # nested and repeated use
                 for sig in (0, 1):
                     yield [init, E("Input", sigint=sig), E("Input", sigint=1 - sig), OP("request"), X, OP("request"), X]
